@@ -47,7 +47,10 @@ func rootPath(root, p string, followLinks bool) (string, error) {
 func ResolveWildcards(root, src string, followLinks bool) ([]string, error) {
 	d1, d2 := splitWildcards(src)
 	if d2 != "" {
-		p, err := rootPath(root, d1, followLinks)
+		// d1 is the directory the pattern is matched in, never the entry
+		// to copy: a symlink as its last component is followed (inside the
+		// root) whatever FollowLinks says about the entries themselves
+		p, err := rootPath(root, d1, true)
 		if err != nil {
 			return nil, err
 		}
